@@ -78,6 +78,18 @@ class RawClient:
     async def leave(self, how):
         self.open = False
         with contextlib.suppress(Exception):
+            if how == "eof" and getattr(self, "hello", True):
+                # an abrupt departure: a command is sent and the connection is torn down without
+                # reading the reply (TCP: reset; Unix: the server's write hits a closed peer)
+                await self.poll()
+                self.reader = None          # whatever else arrives is not read any more
+                self.writer.write(b"num-running\n")
+                sock = self.writer.get_extra_info("socket")
+                if sock is not None and sock.family != socket.AF_UNIX:
+                    import struct
+                    sock.setsockopt(socket.SOL_SOCKET, socket.SO_LINGER, struct.pack("ii", 1, 0))
+                self.writer.transport.abort()
+                return
             self.writer.close()
             await self.writer.wait_closed()
 
